@@ -286,6 +286,7 @@ def run(chk):
                        'every state is evaluated through df.load_collective (from/to, from/to+cycles+extra levels, range/mean forms; scalar and per-level scale/shift operands; edges and IntervalIndex bins; axis grouping), '
                        'rebin_histogram (IntervalIndex and integer binnings, ascending/rotated class order, 2-D with both target level orders) and combine_histogram. '
                        'Non-trivial: histograms with a hanging cycle (from > to) and a covered cycle; rebin with different binnings and non-zero content.')
+    chk.cov['rule'] += ' Re-binning works on class lists incl. an enclosing source class (nested classes), integer-typed counts; held LoadHistogram queried before/after amplitude_histogram; groups with different contents under unsorted keys; negative histogram scale factors must be refused or consistent.'
     chk.cov['exhaustive'] = True
     chk.assumptions += ['integer loads / edges (exact in float64)', 'the histogram counts ROWS of the collective; a cycles column is ignored by the code (open finding C14-cycles-ignored)']
 
